@@ -44,6 +44,16 @@ def build_shimmed(drv, repo, out_name="C02.test"):
 def run(drv, pid, tier, seed, args):
     t0 = time.time()
     repo = os.environ.get("VERIF_REPO", "/repo")
+    if args.get("replay") and is_free(args["replay"]):
+        fb = free_binary(drv)
+        if not fb:
+            return 2
+        rc, out = drv.replay_one(pid, fb, args["replay"])
+        drv.sys_module.stdout.write(out)
+        if "RAW-VIOLATION" in out or rc in (3, 4):
+            drv.say("VIOLATION property=%s replay=%s" % (pid, args["replay"]))
+            return 1
+        return 0 if rc == 0 else 2
     binary = build_shimmed(drv, repo)
     if not binary:
         return 2
@@ -67,6 +77,23 @@ def run(drv, pid, tier, seed, args):
             problems.append("shard %d exited with status %s, see %s" % (i, rc, log))
         if rc == 1 and not violations:
             problems.append("shard %d failed without a violation record:\n%s" % (i, open(log).read()[-1500:]))
+    # second stage: the real scheduler on the unmodified packages (element-count windows), for containers whose internals
+    # have no scheduling points the controlled scheduler could use
+    if not timed_out and not violations:
+        ev2, v3, p3, to2, outdir2 = free_stage(drv, pid, tier, seed, nshards, max(60, drv.CAPS[tier] - (time.time() - t0)))
+        violations += v3
+        problems += p3
+        timed_out = timed_out or to2
+        if ev2:
+            c1, c2 = ev["coverage"], ev2["coverage"]
+            c1["evaluations"] += c2.get("evaluations", 0)
+            c1["distinct_nontrivial"] += c2.get("distinct_nontrivial", 0)
+            c1["rule"] = c1.get("rule", "") + " || " + c2.get("rule", "")
+            c1["samples"] = (c1.get("samples") or [])[:8] + (c2.get("samples") or [])[:3]
+            c1["checks"].update(c2.get("checks") or {})
+            c1["exhaustive"] = bool(c1.get("exhaustive")) and bool(c2.get("exhaustive"))
+        if outdir2 and not args.get("keep") and not v3 and not p3:
+            shutil.rmtree(outdir2, ignore_errors=True)
     cov = ev["coverage"]
     sched = cov["checks"].get("schedules", {})
     cov["programs"] = sum(v for k, v in (sched.get("labels") or {}).items() if k.startswith("programs ") and "x" in k)
@@ -79,6 +106,43 @@ def run(drv, pid, tier, seed, args):
     return code
 
 
+def free_binary(drv):
+    tag = ""
+    if os.environ.get("VERIF_REPO"):
+        tag = "-alt-" + hashlib.sha1(os.path.realpath(os.environ["VERIF_REPO"]).encode()).hexdigest()[:10]
+    return drv.build("C02", "./conc/free", out=os.path.join(drv.BUILD, "C02-free%s.test" % tag))
+
+
+def free_stage(drv, pid, tier, seed, nshards, cap):
+    """Runs conc/free (plain build, real scheduler). Returns (evidence, violations, problems, timed_out, outdir)."""
+    t1 = time.time()
+    binary = free_binary(drv)
+    if not binary:
+        return None, [], ["the free-running harness did not build"], False, None
+    outdir = os.path.join(drv.BUILD, "out", "%s-free-%s-%d" % (pid, tier, os.getpid()))
+    shutil.rmtree(outdir, ignore_errors=True)
+    results, timed_out = drv.run_shards(pid, binary, tier, seed, nshards, outdir, cap)
+    ev, violations, known, problems, _ = drv.merge(pid, tier, seed, outdir, results, t1)
+    v2, p2 = drv.handle_stuck(pid, binary, results, outdir)
+    violations += v2
+    problems += p2
+    for i, rc, log in results:
+        if rc not in (0, 1, 3, 4) and not timed_out:
+            problems.append("free-running stage: shard %d exited with status %s, see %s" % (i, rc, log))
+        if rc == 1 and not violations:
+            problems.append("free-running stage: shard %d failed without a violation record:\n%s" % (i, open(log).read()[-1500:]))
+    drop_alt(binary)
+    return ev, violations, problems, timed_out, outdir
+
+
+def is_free(path):
+    import json
+    try:
+        return str(json.load(open(path)).get("check", "")).startswith("count-window")
+    except Exception:
+        return False
+
+
 def drop_alt(binary):
     """The binary of a scratch tree is of no use once its run is over."""
     if binary and "-alt-" in os.path.basename(binary):
@@ -89,4 +153,4 @@ def drop_alt(binary):
 
 
 def setup(drv):
-    return build_shimmed(drv, "/repo") is not None
+    return build_shimmed(drv, "/repo") is not None and free_binary(drv) is not None
